@@ -35,7 +35,7 @@ def spaces(ctx):
 
 
 def run(ctx):
-    ctx.prove("Props/C03.v", ["Spec/CMBlock.v", "Proofs/CMProofs.v", "Extract/Extract.v"])
+    ctx.prove("Props/C03.v", ["Spec/CMBlock.v", "Proofs/CMProofs.v", "Proofs/CMFuel.v", "Extract/Extract.v"])
     # ---- (0) the spec model itself: the CommonMark examples inside F, and markdown-it on a sample
     exs = [e for e in cm.spec_examples() if "\t" not in e["markdown"]]
     res = cm.cm_html_many([e["markdown"] for e in exs])
